@@ -265,3 +265,40 @@ func MustValid(q models.Query, schema models.IndexSchema) {
 		panic(fmt.Sprintf("gen: generated query fails schema validation: %v (%+v)", err, q))
 	}
 }
+
+// VecQueryParts draws the pieces of a vector query on a vector property.
+func VecQueryParts(t *rapid.T, label string, m *model.Collection, pool []uuid.UUID, prop string, maxLimit int) (vec []float32, limit int, weight *float32, filter *models.Query) {
+	dim, metric := VectorParams(m.Schema[prop])
+	// query vector: fresh, or equal to a stored one (distance 0, ties)
+	var stored [][]float32
+	for _, id := range m.Ids() {
+		if v, ok := model.FieldVector(m.Docs[id], prop); ok {
+			stored = append(stored, v)
+		}
+	}
+	if len(stored) > 0 && rapid.IntRange(0, 3).Draw(t, label+"-qsrc") == 0 {
+		vec = append([]float32(nil), stored[rapid.IntRange(0, len(stored)-1).Draw(t, label+"-qstored")]...)
+	} else {
+		vec = GenVector(t, label+"-qv", dim, metric)
+	}
+	switch rapid.IntRange(0, 3).Draw(t, label+"-limk") {
+	case 0:
+		limit = rapid.IntRange(1, 3).Draw(t, label+"-lim-small")
+	case 1:
+		limit = rapid.SampledFrom([]int{maxLimit, max(1, len(stored)), max(1, len(stored)-1), len(stored) + 1}).Draw(t, label+"-lim-edge")
+	default:
+		limit = rapid.IntRange(1, maxLimit).Draw(t, label+"-lim")
+	}
+	if limit > maxLimit {
+		limit = maxLimit
+	}
+	if rapid.IntRange(0, 2).Draw(t, label+"-hasw") == 0 {
+		w := rapid.SampledFrom([]float32{0, 1, -1, 0.5, 2.5, -3, 1e-3}).Draw(t, label+"-w")
+		weight = &w
+	}
+	if len(FilterProps(m.Schema)) > 0 && rapid.IntRange(0, 2).Draw(t, label+"-hasf") == 0 || rapid.IntRange(0, 9).Draw(t, label+"-idf") == 0 {
+		f := FilterTree(t, label+"-f", m, pool, 2)
+		filter = &f
+	}
+	return
+}
